@@ -530,6 +530,12 @@ class TaskStateMachine(object):
         if ac_ex_event.status in requirements:
             # Make a copy of the items and remove current item under evaluation.
             staged_task = workflow_state.get_staged_task(task_id, task_route)
+
+            # If the task is no longer staged, the task is already completed and
+            # this is a late report of an item. There is no other item to evaluate.
+            if not staged_task:
+                return action_event
+
             items = json_util.deepcopy(staged_task["items"])
             del items[ac_ex_event.item_id]
             items_status = [item.get("status", statuses.UNSET) for item in items]
